@@ -70,3 +70,6 @@ pub open spec fn logs_extend(a: World, b: World) -> bool {
     a.better_queries.len() <= b.better_queries.len() && b.better_queries.subrange(0, a.better_queries.len() as int) =~= a.better_queries
     && a.rollback_attempts.len() <= b.rollback_attempts.len() && b.rollback_attempts.subrange(0, a.rollback_attempts.len() as int) =~= a.rollback_attempts
 }
+
+// result of MDK::is_leaf_node_admin for the receiver's own leaf (decided in unit group_ops) — uninterpreted here
+pub uninterp spec fn leaf_is_admin(w: World, v: MlsView) -> bool;
